@@ -25,8 +25,13 @@ def run(ctx):
                "in order; result = at most one folded constant followed by the "
                "non-constants; operator/neutral element/constructor agree; no "
                "folding across a non-commutative product")
-    ctx.decline("value preservation and normal forms of TermCollector and "
-                "DistributeMapper (search over term multisets)")
+    ctx.decide("TermCollector bookkeeping: split_term's partition of the "
+               "(base, exponent) table loses no component (a coefficient factor "
+               "is base**exponent, a term factor keeps base -> exponent); map_sum "
+               "adds up the coefficients of equal terms and rebuilds every entry")
+    ctx.decline("value preservation and normal forms of DistributeMapper and of "
+                "term collection beyond that bookkeeping (search over term "
+                "multisets)")
     ctx.assume("exact commutative arithmetic for the folded sums (property text)")
 
     _flattened(ctx, model, "flattened_sum", "Sum", 0, annihilator=None)
@@ -34,6 +39,7 @@ def run(ctx):
     _flatten_mapper(ctx, model)
     _fold(ctx, model)
     _folders(ctx, model)
+    _term_collector(ctx, model)
 
 
 def _item_cond(v, what, cls=None):
@@ -395,3 +401,94 @@ def _folders(ctx, model):
                "uncached CSE handler is the identity traversal's" if ok else
                f"{c.name}.map_common_subexpression_uncached is not "
                "IdentityMapper.map_common_subexpression")
+
+
+def _has(v, tag):
+    return contains(v, lambda t: t[0] == tag)
+
+
+def _term_collector(ctx, model):
+    tc = model.cls("pymbolic.mapper.collector:TermCollector")
+    st = tc.members.get("split_term")
+    ms = tc.members.get("map_sum")
+    if st is None or ms is None:
+        raise AnalysisError("TermCollector.split_term/map_sum not found")
+    loc = tc.module.loc(st.node)
+    n_coeff = n_term = 0
+    ok_coeff = ok_term = ok_once = True
+    for ps in summarize(st.node, node_param=False, loop_mode="1"):
+        if ps.term != "return":
+            continue
+        apps = [e for e in ps.events if e.kind == "call"
+                and e.name == "coefficients.append"]
+        keeps = [e for e in ps.events if e.kind == "itemwrite"
+                 and e.name == "cleaned_base2exp"]
+        if len(apps) + len(keeps) != 1:
+            ok_once = False
+        for e in apps:
+            n_coeff += 1
+            v = e.args[0]
+            # the coefficient factor must carry base *and* exponent
+            if not (_has(v, "key") and _has(v, "val")):
+                ok_coeff = False
+        for e in keeps:
+            n_term += 1
+            if not (e.args[0][0] == "key" and e.value[0] == "val"
+                    and e.args[0][1] == e.value[1]):
+                ok_term = False
+    ctx.ob("P/TermCollector.split_term/coefficient-keeps-exponent",
+           ok_coeff and n_coeff > 0, loc,
+           "a coefficient factor is base**exponent" if ok_coeff and n_coeff else
+           "split_term moves a factor to the coefficients without its exponent "
+           "(or without its base): a**2 collected as a")
+    ctx.ob("P/TermCollector.split_term/term-keeps-exponent", ok_term and n_term > 0,
+           loc, "a term factor keeps base -> exponent" if ok_term and n_term else
+           "split_term records a term factor without pairing the base with its "
+           "own exponent")
+    ctx.ob("P/TermCollector.split_term/partition", ok_once, loc,
+           "every (base, exponent) entry goes to exactly one side" if ok_once else
+           "split_term drops or duplicates an entry of the (base, exponent) "
+           "table")
+    # exponents of equal bases add up
+    ok_acc = False
+    for ps in summarize(st.node, node_param=False, loop_mode="1"):
+        for e in ps.events:
+            if e.kind == "itemwrite" and e.name == "base2exp":
+                present = any(pol and isinstance(v, tuple) and v[0] == "compare"
+                              and v[1] == ("In",) for _, pol, v in ps.conds)
+                if present and e.value[0] == "binop" and e.value[1] == "Add":
+                    ok_acc = True
+    ctx.ob("P/TermCollector.split_term/exponents-add", ok_acc, loc,
+           "exponents of equal bases are added" if ok_acc else
+           "split_term does not add the exponents of repeated bases")
+    # map_sum
+    loc = tc.module.loc(ms.node)
+    ok_sum = ok_res = False
+    for ps in summarize(ms.node, loop_mode="1"):
+        split = ("call", "self.split_term", (("elem", ("attr", NODE,
+                                                       "children")),), ())
+        for e in ps.events:
+            if e.kind == "itemwrite" and e.name == "term2coeff":
+                key, val = e.args[0], e.value
+                ok_sum = (key == ("index", split, 0) and val[0] == "binop"
+                          and val[1] == "Add" and ("index", split, 1) in (
+                              val[2], val[3])
+                          and contains(val, lambda t: t[0] == "call"
+                                       and t[1].endswith(".get")
+                                       and t[2][0] == key))
+        rv = ps.retval
+        if ps.term == "return" and rv[0] == "call" and \
+                rv[1].endswith("flattened_sum") and rv[2][0][0] == "seq" \
+                and not rv[2][0][4]:
+            el, src = rv[2][0][2], rv[2][0][3]
+            ok_res = (src[0] == "items" and el[0] == "binop" and el[1] == "Mult"
+                      and _has(el, "val") and _has(el, "key"))
+    ctx.ob("P/TermCollector.map_sum/coefficients-added", ok_sum, loc,
+           "coefficients of equal terms are added, starting from 0" if ok_sum
+           else "map_sum does not accumulate term2coeff[term] = "
+           "term2coeff.get(term, 0) + coeff for every child")
+    ctx.ob("P/TermCollector.map_sum/every-term-rebuilt", ok_res, loc,
+           "the result sums coefficient * term over every collected entry"
+           if ok_res else
+           "map_sum's result is not the sum of coeff * term over all entries of "
+           "the collected table")
